@@ -91,6 +91,36 @@ end PartSpec
 /-- what the sequential `for i, v := range data { … f(i, v) … }` delivers / stores, in order -/
 def seqEvents {α : Type} (g : Int → α) (n : Nat) : List (Int × α) := (List.range n).map (fun (k : Nat) => ((k : Int), g (k : Int)))
 
+/-! ## Block meshes merged by `Mesh.Append` -/
+
+/-- a triangle mesh with one vertex attribute: `Mesh.Append` concatenates the vertex arrays and shifts the indices of the
+    second mesh by the vertex count of the first (modeling/mesh.go Append) -/
+structure TMesh (V : Type) where
+  verts : List V
+  tris : List (Nat × Nat × Nat)
+
+namespace TMesh
+variable {V : Type}
+
+def empty : TMesh V := ⟨[], []⟩
+
+def WF (m : TMesh V) : Prop :=
+  ∀ t ∈ m.tris, t.1 < m.verts.length ∧ t.2.1 < m.verts.length ∧ t.2.2 < m.verts.length
+
+def shift (k : Nat) (t : Nat × Nat × Nat) : Nat × Nat × Nat := (t.1 + k, t.2.1 + k, t.2.2 + k)
+
+def append (a b : TMesh V) : TMesh V :=
+  ⟨a.verts ++ b.verts, a.tris ++ b.tris.map (shift a.verts.length)⟩
+
+/-- triangles as corner positions (`none` would be a dangling index; never for a well-formed mesh) -/
+def corners (m : TMesh V) : List (Option V × Option V × Option V) :=
+  m.tris.map (fun t => (m.verts[t.1]?, m.verts[t.2.1]?, m.verts[t.2.2]?))
+
+/-- `finalMesh := EmptyMesh; for each block result r (in arrival order): finalMesh = finalMesh.Append(r)` -/
+def mergeAll (l : List (TMesh V)) : TMesh V := l.foldl append empty
+
+end TMesh
+
 /-- insertion sort on Int (used by the driver to canonicalise a multiset of visits) -/
 def insertSorted (x : Int) : List Int → List Int
   | [] => [x]
